@@ -30,7 +30,7 @@ JOBS.append(dict(COMMON, name="ct.hmac", files=["harness/h_ct.c", "stubs/ct_hook
                  grid=[{"label": "k%d_m%d" % (k, m), "defs": ["WHAT=4", "KL=%d" % k, "ML=%d" % m]} for (k, m) in ((0, 3), (20, 17), (64, 5), (65, 5), (80, 0))], cost=30,
                  bounded="key lengths {0,20,64,65,80} (key-length class is public), message lengths {0,3,5,17}; key and message bytes secret; hash API = contract stubs"))
 JOBS.append(dict(COMMON, name="ct.prng", files=["harness/h_ct.c", "stubs/ct_hook.c", "stubs/hash_free.c", "stubs/mem.c", "stubs/clean_stub.c", "repo:src/tinyjambu-prng.c"],
-                 functions=["tinyjambu_prng_generate", "tinyjambu_prng_reseed"], allow_no_body=["tinyjambu_trng_generate"],
+                 functions=["tinyjambu_prng_generate", "tinyjambu_prng_reseed"], allow_no_body=["tinyjambu_trng_generate"], mem_gb=24, mem_share=0.5,
                  grid=[{"label": "sz%d_c%d_l%d" % (sz, c, l), "defs": ["WHAT=6", "ML=%d" % sz, "AD=%d" % c, "KL=%d" % l]} for (sz, c, l) in ((32, 1, 32), (70, 200, 1000), (33, 33, 32), (64, 255, 300))], cost=30,
                  bounded="generate sizes {32,33,64,70} with (counter, limit) in {(1,32),(200,1000),(33,32),(255,300)}; V, C and entropy bytes secret; hash API = branch-free contract stubs"))
 L2CT = ["harness/h_ct.c", "stubs/ct_hook.c", "stubs/hash_free.c", "stubs/clean_noop.c", "repo:src/tinyjambu-hmac.c"]
